@@ -96,7 +96,7 @@ func checkC01(c *core.Ctx) {
 
 	// random pieces
 	c.Stream("random", c.N(4000, 60000), func(i int, r *rand.Rand) {
-		p := model.RandPiece(r, model.GenOpts{MinLen: 1, MaxLen: c.N(12, 40), RestProb: 0.2, SettingProb: 0.15, TextProb: 0.05, KeyChanges: true, BassProb: 0.5})
+		p := model.RandPiece(r, model.GenOpts{MinLen: 1, MaxLen: c.N(12, 40), RestProb: 0.2, SettingProb: 0.15, TextProb: 0.05, KeyChanges: true, BassProb: 0.5, Tiny: true})
 		var f model.Flags
 		if r.Intn(3) == 0 {
 			f.Key = model.RandKey(r)
